@@ -46,6 +46,10 @@ def run(tier, seed, t0):
                              "--reps", 400 if thorough else 100, "--seed", seed + el]))
     jobs.append(Job("asan-multi-array", "drv_c08", "asan", "spqlios-fma",
                     ["--mode", "multi", "--t", 4, "--basebit", 3, "--n_in", 9, "--n_out", 5, "--arrayelement", 1, "--reps", 20, "--seed", seed], timeout=1200))
+    # several threads at once, each with its own key (decomposition, dimensions); natively and under TSan
+    jobs.append(Job("threads-optim", "drv_c08", "optim", "spqlios-fma", ["--mode", "threads", "--threads", 12, "--iters", 20000 if thorough else 3000, "--seed", seed + 6], timeout=3600))
+    jobs.append(Job("threads-debug", "drv_c08", "debug", "nayuki-portable", ["--mode", "threads", "--threads", 8, "--iters", 1500, "--seed", seed + 7], timeout=3600))
+    jobs.append(Job("threads-tsan", "drv_c08", "tsan", "nayuki-portable", ["--mode", "threads", "--threads", 4, "--iters", 300, "--seed", seed + 8], tool="tsan", timeout=3600, meta={"leaks": False}))
     # debug (scalar lweSubTo) on a subset
     for (t, bb) in [(8, 2), (2, 15), (31, 1), (1, 1)]:
         for no in (1, 9):
